@@ -44,14 +44,14 @@ def judge(res, traces, wd):
 def run_items(items):
     # references: each model B alone, in a FRESH interpreter (one task per worker process)
     refs = {}
-    ref_items = sorted({(it["b"], v) for it in items for v in (0, 1)})
+    ref_items = sorted({(it["b"], v) for it in items for v in (0, 1, 2)})
     outs = pool_map("drv_c12", "run", [dict(hist=[], b=b, verbose=v) for b, v in ref_items], maxtasksperchild=1, chunksize=1)
     for (b, v), o in zip(ref_items, outs):
         refs[(b, v)] = o
     traces = pool_map("drv_c12", "run", items, maxtasksperchild=1, chunksize=1)
     for t in traces:
         r = refs[(t["b"], t["verbose"])]
-        o = refs.get((t["b"], 1 - t["verbose"]), r)      # the same model at the other verbosity level
+        o = refs.get((t["b"], (t["verbose"] + 1) % 3), r)      # the same model at the next verbosity level (0 -> 1 -> 2 -> 0)
         t.update(ref_snap=r["snap"], ref_hash=r["hash"], ref_rows=r["rows"], ref_val=r["val"], ref_out=r["out"],
                  oth_hash=o["hash"], oth_rows=o["rows"], oth_val=o["val"], oth_out=o["out"])
     return traces
@@ -76,7 +76,7 @@ def run(tier):
     more = [p for p in progs if len(p["hist"]) >= 2]
     rnd.shuffle(more)
     sel = one + more[:(150 if tier == "quick" else 900)]
-    items = [dict(hist=p["hist"], b=p["b"], verbose=(i % 5 == 0) * 1) for i, p in enumerate(sel)]
+    items = [dict(hist=p["hist"], b=p["b"], verbose=(0, 0, 0, 1, 2)[i % 5]) for i, p in enumerate(sel)]
     traces = run_items(items)
     res.traces = res.evaluations = len(traces)
     judge(res, traces, wd)
